@@ -12,6 +12,30 @@ from fastavro.schema import to_parsing_canonical_form, fingerprint
 from fastavro.validation import validate
 
 
+class CallTimeout(Exception):
+    pass
+
+
+def _alarm(signum, frame):
+    raise CallTimeout()
+
+
+def limited(fn, seconds=10):
+    """runs one call of the implementation with a time limit (a changed decoder that loses alignment can loop
+    over an astronomically large count); returns fn() or raises CallTimeout"""
+    import signal
+    import threading
+    if threading.current_thread() is not threading.main_thread():
+        return fn()
+    old = signal.signal(signal.SIGALRM, _alarm)
+    signal.setitimer(signal.ITIMER_REAL, seconds)
+    try:
+        return fn()
+    finally:
+        signal.setitimer(signal.ITIMER_REAL, 0)
+        signal.signal(signal.SIGALRM, old)
+
+
 def backend():
     import fastavro._read as r
     return getattr(r, "__file__", "?")
@@ -39,7 +63,9 @@ def enc(schema, value, opts=None, parsed=False):
         return {"perr": exc_class(e)}
     fo = io.BytesIO()
     try:
-        schemaless_writer(fo, s if parsed else copy.deepcopy(schema), value, **wopts_kw(opts))
+        limited(lambda: schemaless_writer(fo, s if parsed else copy.deepcopy(schema), value, **wopts_kw(opts)))
+    except CallTimeout:
+        return {"err": "timeout", "emitted": ""}
     except RecursionError:
         return {"err": "fuel", "emitted": fo.getvalue().hex()}
     except Exception as e:  # noqa
@@ -56,7 +82,11 @@ def dec(schema, data, ropts=None, parsed=False):
         return {"perr": exc_class(e)}
     fo = io.BytesIO(data)
     try:
-        v = schemaless_reader(fo, s if parsed else copy.deepcopy(schema), **ropts_kw(ropts))
+        v = limited(lambda: schemaless_reader(fo, s if parsed else copy.deepcopy(schema), **ropts_kw(ropts)))
+    except CallTimeout:
+        return {"err": "timeout"}
+    except MemoryError:
+        return {"err": "memory"}
     except RecursionError:
         return {"err": "fuel"}
     except Exception as e:  # noqa
